@@ -46,7 +46,7 @@ use repe::{
 use serde_json::{Value, json};
 use std::collections::{BTreeMap, HashMap};
 use std::net::SocketAddr;
-use std::sync::atomic::{AtomicU64, Ordering};
+use std::sync::atomic::{AtomicBool, AtomicU64, Ordering};
 use std::sync::{Arc, Condvar, Mutex};
 use std::time::{Duration, Instant};
 use tokio::io::{AsyncReadExt, AsyncWriteExt};
@@ -164,6 +164,12 @@ enum Ev {
     Disc1 { peer: u64, get: bool, by_a: bool, by_b: bool, n_alias: usize },
     HEnter { peer: u64, tok: u64, off: bool },
     HCancelSeen { peer: u64, tok: u64 },
+    /// the last disconnect hook of `peer` tried to alias the departed peer under a key of the still-connected `victim`
+    LateAlias { peer: u64, victim: u64, accepted: bool },
+    /// the `ctx.cancelled()` future the handler first polled when it parked was woken and resolved (`ms` after is_cancelled() read true)
+    HFutureResolved { peer: u64, tok: u64, ms: u64 },
+    /// ... was not woken within FUT_GRACE of is_cancelled() reading true
+    HFutureStuck { peer: u64, tok: u64, stalled: bool },
     HRelease { peer: u64, tok: u64, off: bool, s1: u64, cancelled: bool, timeout: bool },
     Probe { peer: u64, s1: u64, get: bool, by_a: bool, by_b: bool, site: &'static str },
     QueueFull { peer: u64, pushed: u64 },
@@ -297,6 +303,19 @@ impl Scn {
     fn snapshot(&self) -> Vec<(u64, Ev)> {
         self.log.lock().unwrap_or_else(|e| e.into_inner()).clone()
     }
+    /// A peer whose connect hooks ran and none of whose disconnect hooks has run yet.
+    fn live_peer_other_than(&self, peer: u64) -> Option<u64> {
+        let log = self.log.lock().unwrap_or_else(|e| e.into_inner());
+        let mut live: Vec<u64> = vec![];
+        for (_, e) in log.iter() {
+            match e {
+                Ev::Connect1 { peer: p, .. } if *p != peer => live.push(*p),
+                Ev::Disc0 { peer: p, .. } | Ev::Disc1 { peer: p, .. } => live.retain(|x| x != p),
+                _ => {}
+            }
+        }
+        live.first().copied()
+    }
     fn alias_a(peer: u64) -> String {
         format!("a-{peer}")
     }
@@ -344,6 +363,18 @@ impl Scn {
     }
 }
 
+/// How long after `is_cancelled()` read true the already-polled `cancelled()` future may take to be woken.
+const FUT_GRACE: Duration = Duration::from_secs(2);
+struct WakeFlag(AtomicBool);
+impl std::task::Wake for WakeFlag {
+    fn wake(self: Arc<Self>) {
+        self.0.store(true, Ordering::SeqCst);
+    }
+    fn wake_by_ref(self: &Arc<Self>) {
+        self.0.store(true, Ordering::SeqCst);
+    }
+}
+
 fn ctx_peer(ctx: &CallContext<'_>) -> u64 {
     ctx.peer().map(|p| p.peer_id().0).unwrap_or(u64::MAX)
 }
@@ -371,16 +402,42 @@ fn park(sc: &Scn, ctx: &CallContext<'_>, off: bool) -> Result<Value, (ErrorCode,
         sc.push(Ev::HHookRelease { peer, tok, by_hook, cancelled });
     }
     let (mut seen, mut action, mut timeout) = (false, None, false);
+    // The future form of the same signal, the way a `select!` arm holds it: polled once NOW (before the connection ends) with a
+    // waker of our own, and polled again only when that waker fired. It must be woken once the call is cancelled.
+    let wf = Arc::new(WakeFlag(AtomicBool::new(false)));
+    let waker = std::task::Waker::from(wf.clone());
+    let mut fut = Box::pin(ctx.cancelled());
+    let mut fut_done = matches!(fut.as_mut().poll(&mut std::task::Context::from_waker(&waker)), std::task::Poll::Ready(()));
+    let mut fut_reported = fut_done;
+    let mut seen_at: Option<Instant> = None;
+    let hb0 = Instant::now();
+    let mut worst_gap = Duration::ZERO;
+    let mut last = hb0;
     loop {
         if let Some(a) = sc.hgate.wait(Duration::from_millis(3)) {
             action = Some(a);
             break;
         }
+        worst_gap = worst_gap.max(last.elapsed());
+        last = Instant::now();
+        if !fut_done && wf.0.swap(false, Ordering::SeqCst) && matches!(fut.as_mut().poll(&mut std::task::Context::from_waker(&waker)), std::task::Poll::Ready(())) {
+            fut_done = true;
+        }
         if !seen && ctx.is_cancelled() {
             seen = true;
+            seen_at = Some(Instant::now());
             sc.push(Ev::HCancelSeen { peer, tok });
         }
-        if seen && sc.coop {
+        if let Some(t0) = seen_at.filter(|_| !fut_reported) {
+            if fut_done {
+                fut_reported = true;
+                sc.push(Ev::HFutureResolved { peer, tok, ms: t0.elapsed().as_millis() as u64 });
+            } else if t0.elapsed() > FUT_GRACE {
+                fut_reported = true;
+                sc.push(Ev::HFutureStuck { peer, tok, stalled: worst_gap > Duration::from_millis(500) });
+            }
+        }
+        if seen && sc.coop && fut_reported {
             break;
         }
         if start.elapsed() > PARK_CAP {
@@ -496,6 +553,12 @@ fn build_server(sc: &Arc<Scn>, cap: usize) -> WebSocketServer {
             let (get, by_a, by_b) = sd1.probe(id.0);
             let n_alias = sd1.reg.aliases_for(id).len();
             sd1.push(Ev::Disc1 { peer: id.0, get, by_a, by_b, n_alias });
+            // a LATE alias for the connection that is gone (an out-of-band lookup that finished too late), under a key a
+            // still-connected peer holds: it is refused, and being refused it must not cost that peer its alias
+            if let Some(victim) = sd1.live_peer_other_than(id.0) {
+                let accepted = sd1.reg.alias(id, Scn::alias_a(victim));
+                sd1.push(Ev::LateAlias { peer: id.0, victim, accepted });
+            }
             if sd1.hook_release {
                 spin_for(HOOK_SPIN);
             }
@@ -1559,6 +1622,11 @@ struct Tally {
     hook_released_cancelled: u64,
     /// handlers that left the per-connection gate because the driver tore the scenario down (no verdict)
     hook_release_by_driver: u64,
+    /// parked handlers whose earlier-polled `ctx.cancelled()` future was woken and resolved after the cancellation
+    future_woken: u64,
+    future_slowest_ms: u64,
+    late_alias_attempts: u64,
+    late_alias_accepted: u64,
     tk: takeover::TkTally,
 }
 
@@ -1749,6 +1817,21 @@ fn judge_inner(out: &Out, stalled: bool, t: &mut Tally, found: &mut Vec<(String,
         match e {
             Ev::HEnter { .. } => t.parked += 1,
             Ev::HCancelSeen { .. } => t.cancel_seen += 1,
+            Ev::LateAlias { accepted, .. } => {
+                t.late_alias_attempts += 1;
+                t.late_alias_accepted += *accepted as u64;
+            }
+            Ev::HFutureResolved { ms, .. } => {
+                t.future_woken += 1;
+                t.future_slowest_ms = t.future_slowest_ms.max(*ms);
+            }
+            Ev::HFutureStuck { peer, tok, stalled: st } => {
+                if *st || stalled {
+                    rep_note.push(format!("{cell}: a parked handler's cancelled() future was not woken in time while the machine stalled"));
+                } else {
+                    viol("cancelled-future-not-woken", format!("peer {peer} handler #{tok}: is_cancelled() read true, but the ctx.cancelled() future it had polled when it parked was not woken within {} s", FUT_GRACE.as_secs()));
+                }
+            }
             Ev::HRelease { peer, tok, off, s1, cancelled, .. } => {
                 let kind = if *off { "off-reader" } else { "inline" };
                 let d0 = peers.get(peer).and_then(|p| p.d0.first().copied());
@@ -1933,7 +2016,7 @@ pub fn run(args: &Args) -> Report {
     let mut executed_cells: std::collections::BTreeSet<String> = Default::default();
     let mut conn_hist: BTreeMap<usize, u64> = BTreeMap::new();
     let mut slow: Vec<(u64, String)> = vec![];
-    let mut t = Tally { connects: 0, disconnects: 0, probes_present: 0, probes_absent: 0, probes_unconstrained: 0, order_checks: 0, connect_notifies_seen: 0, parked: 0, released_after_disconnect_cancelled: 0, cancel_seen: 0, frames: 0, bystanders_alive: 0, panics: 0, tolerated: 0, error_responses: 0, client_notes: 0, hook_released_cancelled: 0, hook_release_by_driver: 0, tk: Default::default() };
+    let mut t = Tally { connects: 0, disconnects: 0, probes_present: 0, probes_absent: 0, probes_unconstrained: 0, order_checks: 0, connect_notifies_seen: 0, parked: 0, released_after_disconnect_cancelled: 0, cancel_seen: 0, frames: 0, bystanders_alive: 0, panics: 0, tolerated: 0, error_responses: 0, client_notes: 0, hook_released_cancelled: 0, hook_release_by_driver: 0, future_woken: 0, future_slowest_ms: 0, late_alias_attempts: 0, late_alias_accepted: 0, tk: Default::default() };
     let (mut scenarios, mut connections, mut bad_attempts, mut passes_done, mut not_started) = (0u64, 0u64, 0u64, 0u64, 0u64);
     let mut late_connections = 0u64;
     for pass in 0..passes {
@@ -2072,6 +2155,9 @@ pub fn run(args: &Args) -> Report {
     rep.set("handlers_saw_cancel_while_parked", json!(t.cancel_seen));
     rep.set("handlers_released_after_end_and_cancelled", json!(t.released_after_disconnect_cancelled));
     rep.set("handlers_released_by_first_disconnect_hook_and_cancelled", json!(t.hook_released_cancelled));
+    rep.set("parked_handlers_woken_through_the_cancelled_future_polled_before_the_cancel", json!(t.future_woken));
+    rep.set("cancelled_future_wake_slowest_ms", json!(t.future_slowest_ms));
+    rep.set("late_alias_calls_for_a_departed_peer_under_a_live_peers_key", json!({"attempts": t.late_alias_attempts, "accepted": t.late_alias_accepted}));
     rep.set("handlers_released_from_hook_gate_by_driver_teardown", json!(t.hook_release_by_driver));
     t.tk.report(&mut rep);
     rep.set("bystander_liveness_checks", json!(t.bystanders_alive));
